@@ -147,6 +147,34 @@ impl SysSpec {
     }
 }
 
+/// Array-typed interface signals (added after an independently seeded change showed that no generated
+/// system had one): an array input with index width != data width, exported unchanged under another
+/// name, read by a second output, written by a *named* store node that a third output exports; every
+/// array state is exported under a debug name as well.
+pub fn add_array_io(spec: &mut SysSpec, variant: u64) {
+    if spec.inputs.len() >= STATE_BASE as usize - 1 {
+        return;
+    }
+    let (iw, dw) = [(3u32, 5u32), (2, 1), (1, 4)][(variant % 3) as usize];
+    let ai = spec.inputs.len() as u8;
+    spec.inputs.push(Ty::Arr(iw, dw));
+    spec.anon_inputs.push(false);
+    let arr = Sh::Sym(ai, Ty::Arr(iw, dw));
+    spec.outputs.push(("amem_out".into(), arr.clone()));
+    let idx = Sh::Lit(iw, BigUint::from(1u32));
+    spec.outputs.push(("amem_rd".into(), Sh::Op(Op::ArrayRead, [0, 0], vec![arr.clone(), idx.clone()])));
+    let st = Sh::Op(Op::ArrayStore, [0, 0], vec![arr.clone(), idx, Sh::Lit(dw, BigUint::from(1u32))]);
+    if variant % 2 == 0 {
+        spec.named.push(("amem_wr".into(), st.clone()));
+    }
+    spec.outputs.push(("amem_wr_out".into(), st));
+    for (i, s) in spec.states.clone().iter().enumerate() {
+        if let Ty::Arr(..) = s.ty {
+            spec.outputs.push((format!("{}_dbg", state_name(i)), Sh::Sym(STATE_BASE + i as u8, s.ty)));
+        }
+    }
+}
+
 pub fn show_with(e: &Sh, nm: &dyn Fn(u8, Ty) -> String) -> String {
     match e {
         Sh::Sym(i, t) => nm(*i, *t),
